@@ -25,6 +25,7 @@ def plan(tier, seed):
         specs.append({"name": "lin-%dD" % nd, "kind": "lin", "nd": nd, "n": n, "timeout": 1500})
         specs.append({"name": "scale-%dD" % nd, "kind": "scale", "nd": nd, "n": n, "timeout": 1500})
     specs.append({"name": "phi1d", "kind": "phi1d", "n": 60 if q else 600, "timeout": 900})
+    specs.append({"name": "longrun", "kind": "longrun", "n": 6 if q else 30, "timeout": 1500})
     for b in range(1 if q else 6):
         specs.append({"name": "prog-%d" % b, "kind": "prog", "b": b, "n": 10 if q else 30, "timeout": 1500})
     return specs
@@ -32,7 +33,7 @@ def plan(tier, seed):
 
 def required(tier):
     return {"linearity": 25, "theta-scaling": 60, "refsize-integrator": 30, "refsize-phi_1D": 25, "refsize-program": 5, "time-shift-invariant": 20, "empty-density-receives-mutations": 30, "theta0-zero-additive": 30,
-            "linearity-program": 5}
+            "linearity-program": 5, "homogeneous-over-long-runs": 3}
 
 
 def draw(rng, nd, frozen=None, focus=None):
@@ -65,6 +66,24 @@ def draw(rng, nd, frozen=None, focus=None):
             kw["m%d%d" % (i + 1, j + 1)] = m
             ms.append(m)
         per.append((nu, ms, gamma, h))
+    # ties (symmetric migration, equal sizes / selection / dominance across populations), any subset of the groups: independently
+    # drawn reals are never equal, real models often are
+    if nd > 1 and focus is None and rng.random() < 0.3:
+        tie = {g: bool(rng.random() < 0.6) for g in ("nu", "gamma", "h", "m")}
+        for i in range(1, nd):
+            if tie["nu"]:
+                kw[nus[i]] = kw[nus[0]]
+            if tie["gamma"]:
+                kw[gnames[i]] = kw[gnames[0]] if kw[gnames[0]] != 0 else 3.0
+            if tie["h"]:
+                kw[hnames[i]] = kw[hnames[0]]
+        if tie["gamma"] and kw[gnames[0]] == 0:
+            kw[gnames[0]] = 3.0
+        if tie["m"]:
+            for i in range(nd):
+                for j in range(i + 1, nd):
+                    kw["m%d%d" % (j + 1, i + 1)] = kw["m%d%d" % (i + 1, j + 1)]
+        per = [(kw[nus[i]], [kw["m%d%d" % (i + 1, j + 1)] for j in range(nd) if j != i], kw[gnames[i]], kw[hnames[i]]) for i in range(nd)]
     return kw, per
 
 
@@ -89,8 +108,44 @@ def run(spec, rec):
         run_integ(spec, rec, Integration, kind)
     elif kind == "phi1d":
         run_phi1d(spec, rec, PhiManip, Numerics)
+    elif kind == "longrun":
+        run_longrun(spec, rec, Integration, PhiManip, Numerics)
     else:
         run_prog(spec, rec, dadi)
+
+
+def run_longrun(spec, rec, Integration, PhiManip, Numerics):
+    """homogeneity over integrations long enough to come close to equilibrium, at tiny overall scale: R(a*phi, a*theta0) =
+    a*R(phi, theta0) for a = 1e-3 .. 1e-7 (nothing in the solver may depend on the absolute size of the density)"""
+    for ci in range(spec["n"]):
+        rng = rng_for(spec["seed"], "C03long", ci)
+        nd = 1 if ci % 3 else 2
+        L = int(rng.integers(12, 26)) if nd == 1 else int(rng.integers(8, 12))
+        xx = Numerics.default_grid(L)
+        nu = float(np.exp(rng.uniform(np.log(0.05), np.log(0.5))))
+        T = float(nu * rng.uniform(8, 20)) if nd == 1 else float(nu * rng.uniform(3, 6))
+        gamma = float(rng.choice([0.0, rng.uniform(-3, 3)]))
+        theta0 = float(rng.uniform(0.5, 2))
+        a = float(10 ** rng.uniform(-7, -3))
+        asfunc = bool(ci % 2)
+        if not rec.case("long-%d" % ci, {"nd": nd, "L": L, "nu": nu, "T": T, "gamma": gamma, "a": a, "asfunc": asfunc}, nontrivial=True):
+            continue
+        tags = {"nd": nd, "asfunc": asfunc}
+        phi0 = PhiManip.phi_1D(xx, nu=1.0, theta0=theta0)
+        nu_arg = (lambda t, nu=nu: nu) if asfunc else nu
+        if nd == 1:
+            f = lambda p, th: Integration.one_pop(p, xx, T, nu=nu_arg, gamma=gamma, theta0=th)
+            site = "Integration.one_pop"
+        else:
+            phi0 = PhiManip.phi_1D_to_2D(xx, phi0)
+            m = float(rng.uniform(0.2, 2))
+            f = lambda p, th: Integration.two_pops(p, xx, T, nu1=nu_arg, nu2=2 * nu, m12=m, m21=0.5 * m, gamma1=gamma, theta0=th)
+            site = "Integration.two_pops"
+        ok1, r1 = rec.noraise("driver-returns", lambda: f(phi0.copy(), theta0), site=site, tags=tags)
+        ok2, r2 = rec.noraise("driver-returns", lambda: f(a * phi0, a * theta0), site=site, tags=tags)
+        if ok1 and ok2:
+            sc = float(np.max(np.abs(r1)))
+            rec.close("homogeneous-over-long-runs", float(np.max(np.abs(np.asarray(r2) / a - np.asarray(r1)))) / sc, 1e-9, site=site, tags=dict(tags, a=a))
 
 
 def run_integ(spec, rec, Integration, kind):
